@@ -534,7 +534,14 @@ impl Stream for SStream {
 
 /// how many items child `c` still has in its script
 pub fn items_left(c: usize) -> usize {
-    CTX.with(|ctx| ctx.borrow().scripts.get(c).map(|s| s.iter().filter(|st| matches!(st.res, Res::Item(_))).count()).unwrap_or(0))
+    // items before the end of the stream (steps after the end only exist for misbehaving combinators)
+    CTX.with(|ctx| {
+        ctx.borrow()
+            .scripts
+            .get(c)
+            .map(|s| s.iter().take_while(|st| st.res != Res::Fin).filter(|st| matches!(st.res, Res::Item(_))).count())
+            .unwrap_or(0)
+    })
 }
 
 impl Drop for SStream {
